@@ -349,6 +349,9 @@ class SourceFile:
                 out += self._find(self.children(it), rest)
                 continue
             if it.kind == "macro_call" and it.name == "lazy_static" and not rest:
+                # `lazy_static` names the (single) lazy_static! block of a file: region directives only
+                if head == "lazy_static" and it.body_open is not None:
+                    out.append(it)
                 continue
             if it.name == head and not rest and it.kind in ("fn", "struct", "enum", "type", "const", "static", "trait", "union", "macro_rules"):
                 out.append(it)
